@@ -130,7 +130,7 @@ fn check_cmd(args: &[String]) -> i32 {
     "C17" => {
       CheckSpec {
         property: property.clone(), world: "W5".into(), tier: tier.clone(), seed, level: "exploration".into(),
-        rule: "W5 state-machine world: one real Interpreter per run (fresh thread, PRNG-chosen hash seed, trace on) given a generated machine — either an array-pattern machine (a Scan state over a [u64] vector with pair, head/rest and empty-vector arms, with and without guards, consuming or not) or 1-4 states, 1-3 u64 payload fields, per state a direct transition or 1-4 guarded branches (comparisons of fields with constants or other fields, several of which may hold at once, usually a final wildcard), payload updates (field, constant, field +/- constant, field +/- field), self-loops and cycles, inputs from {0,1,2,3,4,5,7,10} — and 2-5 invocations in the same session, each with a PRNG-chosen transition budget (Interpreter.max_steps in {1,2,3,5,8,13,30,100,1000}). Ill-formed variants: a transition to an undeclared state, a transition to a declared state that has no arm, an argument of the wrong kind, a wrong argument count. Oracle: a reference simulation of the transition system (checked u64 arithmetic, cycle detection): result value, the sequence of (state, payload) parsed from the recorded [trace][fsm][step] events, the limit error for machines that never terminate (bounded liveness in steps), rejection of every ill-formed variant, and the next invocation after a failed or limited one is checked like any other; an invocation that has not answered after 8 s of wall clock (a run takes milliseconds) is reported as a machine that was not stopped, provided the replay in a fresh process exceeds the bound again. A run is non-trivial if at least one well-formed invocation terminated within its budget or was stopped by the limit; distinct = digest over machine text, invocations, budgets and outcomes.".into(),
+        rule: "W5 state-machine world: one real Interpreter per run (fresh thread, PRNG-chosen hash seed, trace on) given a generated machine — either an array-pattern machine (a Scan state over a [u64] vector with pair, head/rest and empty-vector arms, with and without guards, consuming or not), a general array-pattern machine (2-7 ordered arms over the Scan state, each with an empty / exact-length / `| rest` / `…` spread pattern with prefix and suffix elements, repeated names meaning equality, literal elements, optional guards with fall-through to later arms, targets that rebuild the vector from the bound names) or 1-4 states, 1-3 u64 payload fields, per state a direct transition or 1-4 guarded branches (comparisons of fields with constants or other fields, several of which may hold at once, usually a final wildcard), payload updates (field, constant, field +/- constant, field +/- field), self-loops and cycles, inputs from {0,1,2,3,4,5,7,10} — and 2-5 invocations in the same session, each with a PRNG-chosen transition budget (Interpreter.max_steps in {1,2,3,5,8,13,30,100,1000}). Ill-formed variants: a transition to an undeclared state, a transition to a declared state that has no arm, an argument of the wrong kind, a wrong argument count. Oracle: a reference simulation of the transition system (checked u64 arithmetic, cycle detection): result value, the sequence of (state, payload) parsed from the recorded [trace][fsm][step] events, the limit error for machines that never terminate (bounded liveness in steps), rejection of every ill-formed variant, and the next invocation after a failed or limited one is checked like any other; an invocation that has not answered after 8 s of wall clock (a run takes milliseconds) is reported as a machine that was not stopped, provided the replay in a fresh process exceeds the bound again. A run is non-trivial if at least one well-formed invocation terminated within its budget or was stopped by the limit; distinct = digest over machine text, invocations, budgets and outcomes.".into(),
         worker_args: vec!["worker".into(), "--world".into(), "W5".into(), "--seed".into(), seed.to_string()],
         runs: if thorough { 600_000 } else { 40_000 },
         budget: Duration::from_secs(if thorough { 480 } else { 50 }),
@@ -145,7 +145,7 @@ fn check_cmd(args: &[String]) -> i32 {
           "a state in which no guard holds is not pinned down by C17 and is not judged (generated machines usually end their branches with a wildcard)".into(),
           "array-pattern states are generated as one family (a Scan state destructuring a [u64] vector with [a, b | tail], [x | rest] and [] arms); the vector itself is not parsed back from the trace, only the accumulator".into(),
         ],
-        expected_reach: vec!["reach:terminating".into(), "reach:non-terminating".into(), "fault:transition-limit-fired".into(), "fault:transition-to-undeclared-state".into(), "fault:declared-state-without-arm".into(), "fault:wrong-argument-kind".into(), "fault:wrong-argument-count".into(), "fault:overflow-inside-transition".into(), "reach:invocation-after-a-failed-one-follows".into(), "reach:array-pattern-machine".into()],
+        expected_reach: vec!["reach:terminating".into(), "reach:non-terminating".into(), "fault:transition-limit-fired".into(), "fault:transition-to-undeclared-state".into(), "fault:declared-state-without-arm".into(), "fault:wrong-argument-kind".into(), "fault:wrong-argument-count".into(), "fault:overflow-inside-transition".into(), "reach:invocation-after-a-failed-one-follows".into(), "reach:array-pattern-machine".into(), "reach:array-pattern-machine-general".into(), "reach:array-spread-with-prefix-and-suffix".into()],
         exhaustive: false,
         extra: json!({}),
       }
@@ -179,7 +179,7 @@ fn check_cmd(args: &[String]) -> i32 {
       if thorough { wa.push("--thorough".into()); }
       CheckSpec {
         property: property.clone(), world: "W3".into(), tier: tier.clone(), seed, level: "fault_enumeration".into(),
-        rule: format!("W3 bytecode pipeline: producer node (real Interpreter: interpret + compile) -> storage medium owned by the simulator (byte vector; 1 run in 8 also through a real file and load_program_from_file) -> consumer node (fresh thread, other hash seed: ParsedProgram::from_bytes, decode_const_entries). Corpus: {} programs (every snippet harvested at run time from /repo/tests/interpreter.rs and tests/bytecode.rs plus an operator/kind/shape sampler); the first runs walk the corpus in order, from run 24 on interleaved 3:1 with generated programs (literal-only programs with every constant class and variable-width elements — strings of differing byte lengths and multi-byte characters in matrices, sets, records, tables, maps —, W1 sessions batched into one text, assignment templates, relational programs); after the walk half of the runs are generated. Per emitted file: configuration 0/1 (loader accepts it, to_bytes(from_bytes(b)) == b, decoded header/constants/instructions/features/types equal the compiler's CompileCtx field by field) and then storage faults: truncation (t), single bit flips (b), bursts of 2-32 bits (u) must be rejected; zeroed/0xFF/misdirected sectors (z), appended/duplicated regions (a), random byte strings incl. real header prefixes (r), structure-aware single-field boundary values with the checksum recomputed (s) and random patches with the checksum recomputed (c) must never panic, hang or allocate more than 64 MiB + 64 x file length (counting allocator; hard cap turns it into a worker death attributed to the run). {} A run is non-trivial if a file was emitted and damaged files were fed; distinct = digest over program, fault sequence and loader outcomes.", corpus_len, if thorough { "Thorough tier: t and b are enumerated completely (every length, every bit) for every emitted file of the corpus; the other kinds are seeded samples." } else { "Quick tier: t and b are enumerated completely for the first 24 corpus programs; otherwise all kinds are seeded samples (150-400 per run)." }),
+        rule: format!("W3 bytecode pipeline: producer node (real Interpreter: interpret + compile) -> storage medium owned by the simulator (byte vector; 1 run in 8 also through a real file and load_program_from_file) -> consumer node (fresh thread, other hash seed: ParsedProgram::from_bytes, decode_const_entries). Corpus: {} programs (every snippet harvested at run time from /repo/tests/interpreter.rs and tests/bytecode.rs plus an operator/kind/shape sampler); the first runs walk the corpus in order, from run 24 on interleaved 3:1 with generated programs (literal-only programs with every constant class and variable-width elements — strings of differing byte lengths and multi-byte characters in matrices, sets, records, tables, maps —, W1 sessions batched into one text, assignment templates, relational programs); after the walk half of the runs are generated. Per emitted file: configuration 0/1 (loader accepts it, to_bytes(from_bytes(b)) == b, decoded header/constants/instructions/features/types equal the compiler's CompileCtx field by field) and then storage faults: truncation (t), single bit flips (b), bursts of 2-32 bits (u) must be rejected; zeroed/0xFF/misdirected sectors (z), appended/duplicated regions (a), random byte strings incl. real header prefixes (r), structure-aware single-field boundary values with the checksum recomputed (s) and random patches with the checksum recomputed (c) must never panic, hang or allocate more than 64 MiB + 64 x file length (counting allocator; hard cap turns it into a worker death attributed to the run). {} Read-time faults (i, hook H1 `verif_load_program_from_reader`): 24-63 loads per run through the simulator's reader — short reads (1..n bytes per call), EINTR on every n-th call, EIO at the k-th read, a failing k-th seek, end-of-file before the declared length, and a medium that starts serving other (structurally mutated) bytes after n calls; a third of the benign plans ride on a damaged file. Short reads and EINTR must not change the answer (same program or same error kind as from_bytes on the same bytes); hard faults may only fail the load or leave it identical; nothing may panic, exceed the read-call budget or the allocation limit. Runs that go through a real file additionally write 24 damaged files to tmpfs and demand that load_program_from_file answers exactly like from_bytes (f). A run is non-trivial if a file was emitted and damaged files were fed; distinct = digest over program, fault sequence and loader outcomes.", corpus_len, if thorough { "Thorough tier: t and b are enumerated completely (every length, every bit) for every emitted file of the corpus; the other kinds are seeded samples." } else { "Quick tier: t and b are enumerated completely for the first 24 corpus programs; otherwise all kinds are seeded samples (150-400 per run)." }),
         worker_args: wa,
         runs: if thorough { corpus_len * 4 / 3 + 60_000 } else { corpus_len * 4 / 3 + 2_500 },
         budget: Duration::from_secs(if thorough { 900 } else { 55 }),
@@ -187,14 +187,15 @@ fn check_cmd(args: &[String]) -> i32 {
         evidence: base.join("evidence/C07.json"),
         replays: base.join("replays/C07"),
         known: base.join("known_findings.jsonl"),
-        components_real: vec!["mech-syntax parser".into(), "mech-interpreter (interpret, compile)".into(), "mech-core bytecode compiler (CompileCtx::compile, sections, constants)".into(), "mech-core loader (verify_crc_trailer_seek, load_program_from_reader, decode_instructions) and ParsedProgram::{from_bytes,to_bytes,decode_const_entries}".into(), "load_program_from_file on a real tmpfs file (1 run in 8)".into()],
+        components_real: vec!["mech-syntax parser".into(), "mech-interpreter (interpret, compile)".into(), "mech-core bytecode compiler (CompileCtx::compile, sections, constants)".into(), "mech-core loader (verify_crc_trailer_seek, load_program_from_reader, decode_instructions) and ParsedProgram::{from_bytes,to_bytes,decode_const_entries}".into(), "load_program_from_file on real tmpfs files, intact and damaged (1 run in 8)".into(), "load_program_from_reader behind the simulator's fault-injecting reader (hook H1)".into()],
         components_stub: vec!["none of Mech is stubbed; simulated: storage medium between compiler and loader (byte vector with injected damage), hash seeds of producer and consumer, fault schedule".into()],
         assumptions: vec![
           "C07 names the loader and the constant decoder; run_program is never called on damaged or hostile files".into(),
+          "a load that met an injected EIO / failing seek / early EOF may fail or (if the fault fell after the last access) succeed identically; it may never succeed with another program".into(),
           "CRC-32 detects every burst of at most 32 bits, so t/b/u must be rejected outright; for the other kinds only panic/hang/allocation are judged".into(),
           "hang is decided by the loops' own bounds plus the 60 s watchdog backstop".into(),
         ],
-        expected_reach: vec!["fault:t".into(), "fault:b".into(), "fault:u".into(), "fault:z".into(), "fault:a".into(), "fault:r".into(), "fault:s".into(), "fault:c".into(), "reach:files-emitted".into(), "reach:loaded-through-real-file".into()],
+        expected_reach: vec!["fault:t".into(), "fault:b".into(), "fault:u".into(), "fault:z".into(), "fault:a".into(), "fault:r".into(), "fault:s".into(), "fault:c".into(), "fault:i".into(), "fault:f".into(), "fault:i:short-read".into(), "fault:i:eintr".into(), "fault:i:eio".into(), "fault:i:seek-failed".into(), "fault:i:early-eof".into(), "fault:i:rewritten-underneath".into(), "reach:files-emitted".into(), "reach:loaded-through-real-file".into()],
         exhaustive: false,
         extra: json!({"corpus_programs": corpus_len}),
       }
